@@ -40,6 +40,10 @@ Theorem C18_commit_unauth_powerless : forall t id,
   snd (commit_authenticated t id) = snd (commit_authenticated (commit_part t id) id).
 Proof. exact commit_unauth_powerless. Qed.
 
+Theorem C18_check_candidate_unauth_powerless : forall t id,
+  check_candidate t id = check_candidate (commit_part t id) id.
+Proof. exact check_candidate_unauth_powerless. Qed.
+
 (* (5) an accepted session that is elected is the only elected session of its peer:
    at most one ready event per peer at the accepting endpoint (the initiating
    endpoint's duplicates are closed by the acceptor, theorem (3)) *)
@@ -87,5 +91,6 @@ Print Assumptions C18_mirror_agree.
 Print Assumptions C18_tie_resolution.
 Print Assumptions C18_unauth_powerless.
 Print Assumptions C18_commit_unauth_powerless.
+Print Assumptions C18_check_candidate_unauth_powerless.
 Print Assumptions C18_one_ready_per_peer.
 Print Assumptions C18_oracle_sound.
